@@ -62,7 +62,9 @@ def column(draw):
 def table(draw):
     n = draw(st.integers(1, 6))
     # names that the primary-key heuristic does NOT react to (it looks for "_name", "_id", "id_" anywhere, or "id")
-    ns = draw(st.lists(names.filter(lambda s: s != "id" and "_id" not in s and "_name" not in s and "id_" not in s), min_size=n, max_size=n, unique=True))
+    # half of the tables take `rich_names` (leading underscore, camelCase, UPPER_CASE): all legal column names
+    pool = names if draw(st.booleans()) else gen_ir.rich_names
+    ns = draw(st.lists(pool.filter(lambda s: s != "id" and "_id" not in s and "_name" not in s and "id_" not in s), min_size=n, max_size=n, unique=True))
     cols = [draw(column()) for _ in ns]
     pk = draw(st.sampled_from(["none", "explicit", "inferable"]))
     if pk == "explicit":
